@@ -17,7 +17,10 @@ PROOF = {"C19": {"module": "Thm_C19",
                  "theorems": ["C19_serving_until_stop", "C19_clients_served", "C19_disconnect_is_local",
                               "C19_stop", "C19_socket_file", "C19_restart",
                               "C19_pending_handshake_is_local", "C19_stop_completes",
-                              "C19_stop_waits_for_waiting_session"],
+                              "C19_stop_waits_for_waiting_session", "C19_stop_no_overlap",
+                              "C19_stop_completes_when_pool_closed", "C19_every_run_completes",
+                              "C19_close_pool_releases", "C19_overlapping_restart",
+                              "C19_tcp_overlap_harmless", "C19_unix_overlap_loses_socket"],
                  "files": ["srv/SModel.v", "srv/SProofs.v", "srv/SStop.v", "srv/Thm_C19.v"]}}
 TRUSTED = [
     "Coq 8.16.1 kernel (coqc; coqchk in the thorough tier); no native_compute",
@@ -59,9 +62,47 @@ def gen_churn(rng, max_len):
     return labels
 
 
+def gen_overlap(rng, max_len):
+    """Runs that overlap: the server is started again while the cancelled task of the previous run
+    still waits for lingering clients (some of them inside a waiting command); old and new
+    clients are served side by side; the pool may get closed on the way."""
+    labels = ["start"]
+    live, nconn, closed = [], 0, False
+    for _ in range(rng.randint(1, 2)):
+        labels.append("connect"); live.append(nconn); nconn += 1
+    if rng.random() < 0.4:
+        labels.append(f"sendwait {rng.choice(live)}")
+    labels += ["stop", "start"]
+    stopped = False
+    while len(labels) < max_len:
+        x = rng.random()
+        if x < 0.2:
+            labels.append("connect"); live.append(nconn); nconn += 1
+        elif x < 0.5 and live:
+            labels.append(f"send {rng.choice(live)}")
+        elif x < 0.7 and live:
+            labels.append(f"{rng.choice(['leave', 'leave', 'abort'])} {live.pop(rng.randrange(len(live)))}")
+        elif x < 0.78 and not closed:
+            labels.append("closepool"); closed = True
+        elif x < 0.9:
+            labels.append("start" if stopped else "stop"); stopped = not stopped
+        elif live:
+            labels.append(f"sendwait {rng.choice(live)}")
+    if not stopped:
+        labels.append("stop")
+    for c in live:
+        labels.append(rng.choice([f"leave {c}", f"send {c}"]))
+    if not closed and rng.random() < 0.5:
+        labels.append("closepool")
+    return labels
+
+
 def gen_labels(rng, max_len):
-    if rng.random() < 0.25:
+    x = rng.random()
+    if x < 0.25:
         return gen_churn(rng, max_len + 4)
+    if x < 0.4:
+        return gen_overlap(rng, max_len + 4)
     labels = ["start"] if rng.random() < 0.9 else []
     nconn, stopped = 0, False
     pending = []      # connections opened whose handshake line was not sent yet
@@ -78,7 +119,7 @@ def gen_labels(rng, max_len):
             labels.append("connect"); nconn += 1
         elif x < 0.50 and nconn:
             labels.append(f"send {rng.randrange(nconn)}")
-        elif x < 0.55 and nconn:
+        elif x < 0.58 and nconn:
             # a command whose method waits (until-closed): the session stays inside it (open
             # finding D12: a stop then cannot complete even after that client has left)
             labels.append(f"sendwait {rng.randrange(nconn)}")
@@ -86,13 +127,18 @@ def gen_labels(rng, max_len):
             labels.append(f"leave {rng.randrange(nconn)}")
         elif x < 0.75 and nconn:
             labels.append(f"abort {rng.randrange(nconn)}")
+        elif x < 0.78 and nconn and "closepool" not in labels:
+            # the pool is closed from outside: waiting commands return (and a stop that was held
+            # up by a session inside one can complete)
+            labels.append("closepool")
         elif x < 0.9 and not stopped:
             labels.append("stop"); stopped = True
         elif x < 0.93:
             # a start while the server runs is a no-op for the harness; after a stop it is a
-            # restart of the same server object (takes effect once the serving task has completed)
+            # new run of the same server object - also while the cancelled task of the previous
+            # run still waits for lingering clients (overlap)
             labels.append("start")
-            if stopped and rng.random() < 0.7:
+            if stopped:
                 stopped = False
         else:
             labels.append("connect"); nconn += 1
@@ -130,16 +176,26 @@ def job_scn(kind, labels, clients_kind, name):
     exp = [mask_cli(e, clients_kind) for e in exp]
     lines, notes = srvrun.run_scenario(kind, labels, exp, clients_kind, os.path.join(core.REPO, "src"))
     fails = []
+    observations = []
     for i, (ln, want) in enumerate(zip(lines, exp)):
         got = ln.split(";", 1)[1].strip()
         if got != want:
-            fails.append({"what": "observation differs from the verified lifecycle model", "index": i,
-                          "label": labels[i], "implementation": got, "model": want})
+            d = {"what": "observation differs from the verified lifecycle model", "index": i,
+                 "label": labels[i], "implementation": got, "model": want}
+            if kind == "unix" and "overlap=1" in want:
+                # a Unix server started again while its previous run still drains: every run's
+                # final callback removes the same socket path.  The model mirrors what the code
+                # does there (DESIGN I.4), but C19 does not say what should happen: a difference
+                # is recorded as an observation, not judged
+                d["what"] = "(not judged) behaviour after an overlapping restart of a Unix server differs from the model"
+                observations.append(d)
+            else:
+                fails.append(d)
             break
     for n in notes:
         fails.append({"what": n})
     return [{"id": name, "kind": kind, "labels": labels, "clients": clients_kind, "lines": lines,
-             "fails": fails, "checks": len(lines)}]
+             "fails": fails, "checks": len(lines), "observations": observations}]
 
 
 def job_random(seed, count, max_len, cli_every):
@@ -294,6 +350,23 @@ CORPUS = [
      ["raw", "raw", "raw"]),
     ("tcp", ["start", "connect", "connect", "connect", "leave 1", "connect", "leave 0", "send 3", "leave 2", "send 3",
              "connect", "send 4", "stop", "leave 3", "leave 4"], ["raw", "raw", "raw", "raw", "raw"]),
+    # D12 continued: once the pool is closed the waiting command returns, the session whose client
+    # has gone ends, and the stop completes
+    ("tcp", ["start", "connect", "sendwait 0", "leave 0", "stop", "closepool", "connect"], ["raw"]),
+    ("unix", ["start", "connect", "connect", "sendwait 0", "sendwait 1", "leave 0", "stop", "closepool", "send 1",
+              "leave 1"], ["raw", "raw"]),
+    ("unix", ["start", "connect", "closepool", "sendwait 0", "send 0", "stop", "leave 0"], ["raw"]),
+    # a new run while the cancelled task of the previous one still waits for a lingering client:
+    # the old client keeps being served (is_serving() speaks about the latest run), both tasks
+    # complete when their clients have gone
+    ("tcp", ["start", "connect", "stop", "start", "connect", "send 0", "send 0", "send 1", "leave 0", "connect",
+             "stop", "send 1", "send 2"], ["raw", "raw", "raw"]),
+    ("tcp", ["start", "connect", "sendwait 0", "stop", "start", "connect", "stop", "leave 1", "start", "closepool",
+             "send 0", "stop", "leave 0"], ["raw", "raw"]),
+    # ... on a Unix socket the old run's final callback then removes the new run's socket file
+    # (mirrored by the model, not judged)
+    ("unix", ["start", "connect", "stop", "start", "connect", "send 0", "leave 0", "connect", "send 1", "stop",
+              "leave 1"], ["raw", "raw"]),
     # restart of the same server object after a completed stop
     ("unix", ["start", "connect", "stop", "leave 0", "start", "connect", "send 1", "stop", "send 1", "connect"],
      ["raw", "raw"]),
